@@ -93,9 +93,9 @@ def gen(run):
 DEFAULTS = None
 
 
-def to_harness(idx, c, probe):
+def to_harness(idx, c, probe, workspace=False):
     steps = [{"via": st["via"], "payload": json.loads(render_payload(st["payload"], c["json"]))} for st in c["h"]]
-    return {"id": str(idx), "steps": steps, "probe": probe}
+    return {"id": str(idx), "steps": steps, "probe": probe, "workspace": workspace}
 
 
 def expected_probes(st):
@@ -196,13 +196,14 @@ def main(args):
         cases = [(rp["case"]["family"], rp["case"]["spec_case"])]
     else:
         cases = gen(run)
-    hcases = [to_harness(i, c, probe=(fam.startswith("sim") or i % 5 == 0)) for i, (fam, c) in enumerate(cases)]
+    # every other probed case runs in a workspace folder whose root journal is the document of the limits probe
+    hcases = [to_harness(i, c, probe=(fam.startswith("sim") or i % 5 == 0), workspace=(i % 2 == 1)) for i, (fam, c) in enumerate(cases)]
     results = run.harness("settings", hcases, timeout=3000)
     for (fam, c), hc, res in zip(cases, hcases, results):
         nt = any(st["payload"]["shape"] == "object" and st["payload"]["entries"] for st in c["h"])
         run.count(vf.digest(c["h"]), nt)
         for sig, what in evaluate(c, res):
-            run.diverge(sig, what, {"family": fam, "spec_case": c, "probe": hc["probe"]}, res)
+            run.diverge(sig, what + ("  [workspace folder]" if hc["workspace"] else ""), {"family": fam, "spec_case": c, "probe": hc["probe"], "workspace": hc["workspace"]}, res)
     run.traces_validated = len(cases)
     sims = [(c, hc) for (fam, c), hc in zip(cases, hcases) if fam.startswith("sim")]
     if sims:
@@ -218,5 +219,5 @@ def main(args):
 
 def confirm(run, d):
     c = d["case"]["spec_case"]
-    res = run.harness("settings", [to_harness(0, c, d["case"].get("probe", False))])[0]
+    res = run.harness("settings", [to_harness(0, c, d["case"].get("probe", False), d["case"].get("workspace", False))])[0]
     return any(sig == d["sig"] for sig, _ in evaluate(c, res))
